@@ -15,7 +15,7 @@ def main():
     vac = "--vacuity" in args
     if vac:
         args.remove("--vacuity")
-    repo = "/repo"
+    repo = os.environ.get("VF_REPO", "/repo")
     if "--repo" in args:
         k = args.index("--repo")
         repo = args[k + 1]
